@@ -79,7 +79,7 @@ fn put_attr(b: &mut Vec<u8>, ty: u16, v: &[u8]) {
         b.push(0);
     }
 }
-fn stun(msg_type: u16, tx: &[u8; 12], attrs: &[(u16, Vec<u8>)]) -> Vec<u8> {
+pub(crate) fn stun(msg_type: u16, tx: &[u8; 12], attrs: &[(u16, Vec<u8>)]) -> Vec<u8> {
     let mut b = msg_type.to_be_bytes().to_vec();
     b.extend_from_slice(&[0, 0]);
     b.extend_from_slice(&COOKIE);
@@ -91,7 +91,7 @@ fn stun(msg_type: u16, tx: &[u8; 12], attrs: &[(u16, Vec<u8>)]) -> Vec<u8> {
     b[2..4].copy_from_slice(&l.to_be_bytes());
     b
 }
-fn xor_addr(a: SocketAddr) -> Vec<u8> {
+pub(crate) fn xor_addr(a: SocketAddr) -> Vec<u8> {
     let mut v = vec![0u8, 1];
     v.extend_from_slice(&(a.port() ^ 0x2112).to_be_bytes());
     if let std::net::IpAddr::V4(ip) = a.ip() {
@@ -101,13 +101,13 @@ fn xor_addr(a: SocketAddr) -> Vec<u8> {
     }
     v
 }
-struct Req {
-    ty: u16,
-    tx: [u8; 12],
-    has_user: bool,
-    channel: Option<u16>,
+pub(crate) struct Req {
+    pub(crate) ty: u16,
+    pub(crate) tx: [u8; 12],
+    pub(crate) has_user: bool,
+    pub(crate) channel: Option<u16>,
 }
-fn parse(d: &[u8]) -> Option<Req> {
+pub(crate) fn parse(d: &[u8]) -> Option<Req> {
     if d.len() < 20 || d[4..8] != COOKIE {
         return None;
     }
@@ -154,7 +154,7 @@ struct Attack {
 
 const RELAYED: &str = "10.0.0.50:50000";
 
-fn genuine(req: &Req, stage_now: i64) -> Vec<u8> {
+pub(crate) fn genuine(req: &Req, stage_now: i64) -> Vec<u8> {
     match (req.ty, stage_now) {
         (0x0003, 0) => stun(0x0113, &req.tx, &[(0x0009, vec![0, 0, 4, 1, b'U', b'n', b'a', b'u']), (0x0014, b"sim.realm".to_vec()), (0x0015, b"nonce-0123456789".to_vec())]),
         (0x0003, _) => stun(0x0103, &req.tx, &[(0x0016, xor_addr(RELAYED.parse().unwrap())), (0x000D, 600u32.to_be_bytes().to_vec()), (0x0020, xor_addr("10.0.0.1:40000".parse().unwrap()))]),
